@@ -79,6 +79,13 @@ CONSTANTS
                 \* exit status, CLOSE, one wait() at any idle point, target writes
                 \* completing at any idle point
     PrintAt,    \* 0: never; else print the history when it has this length or is terminal
+    Duplex,     \* TRUE: the reading side also SENDS: it writes up to MaxLocal units and its EOF
+                \* towards a peer whose window is PeerWin and who holds what it gets until
+                \* PeerOpen; the local sending state - nothing sent / data queued beyond the
+                \* window / EOF queued behind data (eof_pending) / EOF sent - must not change
+                \* what is received
+    PeerWin, MaxLocal,
+    DropWhileEofPending, \* sensitivity: data arriving while the own EOF is still queued is dropped
     SlowTgt,    \* TRUE: redirect targets are written by a background task (async file object,
                 \* asyncio.StreamWriter): data is queued and written when the target lets it
                 \* (TStep); wait()/communicate()/run() must wait for the queue (ExitAfterOutput)
@@ -245,6 +252,9 @@ QData(q) == IF q = <<>> THEN <<>>
 InitC(W) ==
     [w    |-> W,                         \* channel window (_init_recv_window)
      lim  |-> W,                         \* session._limit
+     lw   |-> 0,                         \* units written by the local application
+     leof |-> FALSE,                     \* it called write_eof()
+     popen |-> FALSE,                    \* the peer reads again (everything queued flows)
      buf  |-> [d \in DTs |-> <<>>],      \* session._recv_buf: chunks and markers
      len  |-> 0,                         \* session._recv_buf_len
      rp   |-> FALSE,                     \* session._read_paused = chan._recv_paused
@@ -370,8 +380,15 @@ FlushC(cc) ==
 CanResume(cc) == cc.rp /\ ~ShouldPause(cc)
 Resume(cc) == IF CanResume(cc) THEN FlushC([cc EXCEPT !.rp = FALSE]) ELSE cc
 
+\* chan._send_state of the reading side
+LQueued(cc) == IF cc.popen \/ cc.lw <= PeerWin THEN 0 ELSE cc.lw - PeerWin
+SendState(cc) == IF ~cc.leof THEN "open"
+                 ELSE IF LQueued(cc) > 0 THEN "eof_pending" ELSE "eof"
+
 OnPacket(cc, p) ==
-    CASE p.t = "data" -> IF cc.rp THEN [cc EXCEPT !.cbuf = Append(@, p)]
+    CASE p.t = "data" -> IF DropWhileEofPending /\ SendState(cc) = "eof_pending"
+                         THEN [cc EXCEPT !.adj = @ + Len(p.u)]     \* dropped, credited back
+                         ELSE IF cc.rp THEN [cc EXCEPT !.cbuf = Append(@, p)]
                          ELSE Deliver(cc, p.dt, p.u)
       [] p.t = "mark" -> Wake([cc EXCEPT !.buf[p.dt] = Append(@, p.u),
                                          !.eff[p.dt] = @ \o p.u], p.dt)
@@ -724,6 +741,21 @@ CanEmit ==
        \/ AllSent /\ ~eofSent
        \/ Proc /\ AllSent /\ ~exitSent
        \/ Proc /\ exitSent
+\* the local application writes / sends EOF; the peer starts reading again
+Local(kind, k) ==
+    /\ Duplex /\ Idle
+    \* tables: the application writes (and sends EOF) before the first packet
+    \* arrives, the peer may start reading at any later idle point
+    /\ Policy # "any" /\ kind # "popen" => ~\E i \in DOMAIN hist : hist[i][1] = "emit"
+    /\ CASE kind = "lwrite" -> ~c.leof /\ c.lw + k <= MaxLocal
+         [] kind = "leof" -> ~c.leof /\ k = 0
+         [] kind = "popen" -> ~c.popen /\ c.lw > 0 /\ k = 0
+    /\ c' = CASE kind = "lwrite" -> [c EXCEPT !.lw = @ + k]
+              [] kind = "leof" -> [c EXCEPT !.leof = TRUE]
+              [] kind = "popen" -> [c EXCEPT !.popen = TRUE]
+    /\ hist' = Hist(<<kind, k, SendState(c'), AE(c)>>)
+    /\ UNCHANGED <<S, sent, eofSent, exitSent, closeSent, wire, swin, ok, ncalls>>
+
 \* the target lets the writer task complete one write
 TStep(d) ==
     /\ SlowTgt /\ Idle /\ c.tgt[d].on /\ c.tgt[d].q # <<>>
@@ -766,6 +798,7 @@ Next ==
     \/ StartCollect
     \/ \E d \in DTs : Redirect(d)
     \/ \E d \in DTs : TStep(d)
+    \/ \E kind \in {"lwrite", "leof", "popen"}, k \in {0, 1, 3} : Local(kind, k) /\ (kind = "lwrite" => k > 0)
 
 Spec == Init /\ [][Next]_vars
 
